@@ -23,6 +23,9 @@ def S(name, run, quick=None, thorough=None, shards=(1, 16), race=False, tiers=("
 
 STAGES = {
     "C17": [S("grid", "^TestC17$", shards=(4, 16))],
+    "C03": [S("regress", "^TestC03Regress$"),
+            S("structured", "^TestC03$", quick=1500, thorough=10000, shards=(4, 16)),
+            S("raw", "^TestC03Raw$", quick=8000, thorough=60000, shards=(4, 16))],
     "C06": [S("codes", "^TestC06$", shards=(8, 16)),
             S("mixed", "^TestC06Mixed$", quick=3000, thorough=20000, shards=(2, 16))],
 }
